@@ -216,3 +216,31 @@ theorem strippedRows_ok (numbered : Bool) (f : FlowX U) (rows : List (RowT U)) (
     exact ⟨out, by simp [strippedRows, h, ho], ho⟩
 
 end Rpft.Export
+
+namespace Rpft.Export
+variable {U : Type} [DecidableEq U]
+
+theorem Reach.ne_nil {f : FlowX U} {n : NodeX U} (h : Reach f n) : f ≠ [] := by
+  induction h with
+  | start h0 => intro e; subst e; cases h0
+  | step _ _ _ ih => exact ih
+
+/-- edges leaving a row, after an injective renaming of the row ids -/
+theorem outOf_map_of_inj (σ : TempId U → Str) (ids : List (TempId U)) (es : List (GEdge U)) (s : TempId U)
+    (hs : s ∈ ids) (hsrc : ∀ e ∈ es, ∀ k, e.src = some k → k ∈ ids)
+    (hinj : ∀ a ∈ ids, ∀ b ∈ ids, σ a = σ b → a = b) :
+    outOf (σ s) (es.map (SEdge.map σ)) = (outOf s es).map (SEdge.map σ) := by
+  simp only [outOf, List.filter_map]
+  congr 1
+  apply List.filter_congr
+  intro e he
+  simp only [Function.comp, SEdge.map]
+  have key : (Option.map σ e.src = some (σ s)) ↔ (e.src = some s) := by
+    rcases hsr : e.src with _ | k
+    · simp
+    · simp only [Option.map_some, Option.some.injEq]
+      have hk := hsrc e he k hsr
+      exact ⟨fun heq => hinj k hk s hs heq, fun heq => heq ▸ rfl⟩
+  exact decide_eq_decide.2 key
+
+end Rpft.Export
